@@ -6,7 +6,7 @@
    pydoctor/astutils.py     unstring_annotation, _AnnotationStringParser, is_none_literal
    pydoctor/templatewriter/pages/__init__.py   format_signature, format_function_def, format_overloads
 
-   inspect.Signature / Parameter are CPython's: Spec/SigStr.v (signature_init, sig_str).
+   inspect.Signature and its parameter class are CPython's: Spec/SigStr.v (signature_init, sig_str).
    _ValueFormatter / _AnnotationValueFormatter wrap the expression and print it when Signature.__str__
    calls repr(): here the wrapped expression itself stands in the parameter (its text is C15). *)
 From Coq Require Import ZArith NArith List Bool.
@@ -33,7 +33,7 @@ Inductive outcome (A : Type) := Ok (a : A) | Raise (e : exn).
 Arguments Ok {A} a.
 Arguments Raise {A} e.
 
-Inductive report := SyntaxErrorInAnnotation | InvalidParameters (e : sig_error) | OverloadAfterPrimary.
+Inductive report := SyntaxErrorInAnnotation | InvalidParams (e : sig_error) | OverloadAfterPrimary.
 
 (* ---- astutils._AnnotationStringParser ----------------------------------------------------------- *)
 (* visit: the node returned; None = SyntaxError raised *)
@@ -249,7 +249,7 @@ Definition handle_signature (d : funcdef) : outcome (signature * list report) :=
         end in
     match signature_init parameters return_annotation with
     | inr s => Ok (s, reps)
-    | inl ex => Ok (mkSig [] None, reps ++ [InvalidParameters ex])          (* except ValueError: Signature() *)
+    | inl ex => Ok (mkSig [] None, reps ++ [InvalidParams ex])          (* except ValueError: Signature() *)
     end
   end.
 
@@ -395,7 +395,7 @@ Definition err_code (e : sig_error) : Z :=
 Definition of_report (r : report) : sexp :=
   match r with
   | SyntaxErrorInAnnotation => A 1
-  | InvalidParameters e => A (10 + err_code e)
+  | InvalidParams e => A (10 + err_code e)
   | OverloadAfterPrimary => A 3
   end.
 Definition exn_code (e : exn) : sexp :=
